@@ -30,6 +30,7 @@ EXTENDS Bih, TLC, Json, IOUtils
 CONSTANTS Coords,     \* lattice coordinates in half units (even numbers)
           Dims,       \* number of varying axes (1 or 2); the others are [0, 2] with points at 1
           MaxBoxes,
+          WithInf,    \* include the infinite box
           WithNull,   \* include the null box
           WithSemi,   \* include semi-infinite boxes (generation only)
           Edge,       \* traverser variant
@@ -52,7 +53,7 @@ SemiCut == MinOf(Coords \ {MinOf(Coords)})
 SemiIntervals == {<<-INF, SemiCut>>, <<SemiCut, INF>>, <<-INF, INF>>}
 SemiKinds == {BoxOf([a \in 1..Dims |-> IF a = 1 THEN s ELSE <<MinOf(Coords), MaxOf(Coords)>>]) :
                 s \in SemiIntervals}
-Kinds == FiniteKinds \cup {InfBox} \cup (IF WithNull THEN {NullBox} ELSE {})
+Kinds == FiniteKinds \cup (IF WithInf THEN {InfBox} ELSE {}) \cup (IF WithNull THEN {NullBox} ELSE {})
          \cup (IF WithSemi THEN SemiKinds ELSE {})
 Configs == UNION {[1..m -> Kinds] : m \in 1..MaxBoxes}
 
